@@ -212,7 +212,9 @@ def _do_convert(w: World, op: dict, idx: int, log: EventLog, viol: list, stats: 
             fn = _named_wrap(fn, fault["named"])
         else:
             exc_name = fault.get("exc", "SimFault")
-            if "k" in fault:
+            if "region" in fault:
+                k = None
+            elif "k" in fault:
                 k = int(fault["k"])
             else:
                 n = w.nsites.get(pid)
@@ -220,7 +222,7 @@ def _do_convert(w: World, op: dict, idx: int, log: EventLog, viol: list, stats: 
                     n = int(op.get("n_hint", 9000))
                 k = int(float(fault["k_frac"]) * n)
     op_exec = dict(op)
-    if fault and "named" not in fault:
+    if fault and "named" not in fault and "region" not in fault:
         op_exec["fault"] = {"k": k, "exc": exc_name}
     executed.append(op_exec)
     if w.control:
@@ -238,7 +240,7 @@ def _do_convert(w: World, op: dict, idx: int, log: EventLog, viol: list, stats: 
     flag_before = bool(jax.config.jax_enable_x64)
     raised: BaseException | None = None
     E = exc_class(exc_name) if exc_name else None
-    w.inj.start(k, (lambda: E(f"sim: injected fault at site {k}")) if E else None)
+    w.inj.start(k, (lambda: E(f"sim: injected fault at site {k}")) if E else None, region=tuple(fault["region"]) if (fault and "region" in fault) else None)
     try:
         to_onnx(fn, list(prog.inputs), **kw)
     except BaseException as e:  # noqa: BLE001
@@ -246,7 +248,7 @@ def _do_convert(w: World, op: dict, idx: int, log: EventLog, viol: list, stats: 
     finally:
         w.inj.stop()
     fired = w.inj.fired
-    if k is None and raised is None:
+    if k is None and raised is None and not fault:
         w.nsites[pid] = w.inj.count
     w.converted.add(pid)
     stats["conversions"] += 1
@@ -537,6 +539,7 @@ def run(plan: dict) -> dict:
 # coordinator side
 # ---------------------------------------------------------------------------
 
+FAULT_REGIONS = ["_lower_and_call", "wrapped", "lower_equation_with_plugin", "lower_jaxpr_with_plugins", "_activate_full_plugin_worlds_for_body", "_build_and_finalize_ir_model", "_trace_to_jaxpr", "apply_monkey_patches", "user_interface", "to_onnx"]
 FIX = "fx::c13::"
 ENUM_QUICK = ["flat", "net", "outer"]
 ENUM_THOROUGH = ["flat", "net", "outer", "fn_boundary", "eqx_block", "plain", "kwblock", "flat_f64", "fn_boundary_f64", "cf_nested"]
@@ -559,8 +562,10 @@ def gen_history(seed: int, run: int, registry: list[str], n_ops: int) -> list[di
             pid = r.choice(pool)
             op: dict = {"op": "convert", "pid": pid}
             v = r.random()
-            if v < 0.30:
+            if v < 0.15:
                 op["fault"] = {"k_frac": round(r.random(), 6), "exc": r.choice(["SimFault", "SimInterrupt"])}
+            elif v < 0.30:
+                op["fault"] = {"region": [r.choice(FAULT_REGIONS), r.randrange(0, 40)], "exc": r.choice(["SimFault", "SimInterrupt"])}
             elif v < 0.36:
                 op["fault"] = {"named": r.choice(["user_raises_before", "user_raises_after"])}
             w_ = r.random()
